@@ -274,6 +274,16 @@ def compare(named: tuple, calls: List[Tuple[str, Any]]) -> Tuple[Optional[str], 
     return (None, result, True)
 
 
+def also_acceptable(calls: List[Tuple[str, Any]], got: Any) -> bool:
+    """The one case the statement leaves open: the last step that was executed returned a context assignment and after it
+    only predicates were evaluated.  Read literally the result is "the value returned by the last step executed" (the
+    assignment, an empty mapping here); the reference says None, like for a chain that simply ran out of instructions."""
+    steps = [c for c in calls if c[0].startswith('s')]
+    if not steps or calls[-1][0].startswith('s') or steps[-1][1] != CTX:
+        return False
+    return got is None or got == {}
+
+
 def shape(named: tuple) -> str:
     parts = []
     for ins in named:
@@ -344,7 +354,7 @@ class Prop:
                     res.violations.append({'clause': 'not-finished', 'features': dict(feats, state=str(proc.state)),
                                            'detail': {'outline': shape(named), 'calls': env.calls,
                                                       'exception': repr(proc.exception())}})
-                elif proc.result() != want or type(proc.result()) is not type(want):  # noqa: E721
+                elif (proc.result() != want or type(proc.result()) is not type(want)) and not also_acceptable(env.calls, proc.result()):  # noqa: E721
                     res.violations.append({'clause': 'result', 'features': feats,
                                            'detail': {'outline': shape(named), 'calls': env.calls,
                                                       'got': repr(proc.result()), 'want': repr(want)}})
